@@ -11,7 +11,7 @@ def run(ctx):
         for line in open(scen2):
             out.write(line)
     ctx.sample(scen, 3)
-    trace = ctx.execute("services", scen)      # one fresh process per call sequence
+    trace = ctx.execute("services", scen, wall=3000 if ctx.quick else 12000)      # one fresh process per call sequence
     # (1) per shard: inputs unchanged, results functional within the shard
     ctx.validate("Services", "Trace_Services.tla", "Trace_C12.cfg", trace, "services", parallel=12)
     # (2) across the whole corpus: one TLC run over the distinct (key, result) observations
@@ -39,5 +39,5 @@ def run(ctx):
     ctx.finish("model_checking",
                "every sequence of %d service calls (parse strict/permissive, validate, analyse, generate C/Python, print plain/auto-ids, resolve, flatten; fresh and reused instances) over %d pool documents, "
                "each sequence in a fresh process; the result digest (canonical model dump + exact math strings + issue list) of each call must be a function of (operation, argument digests, documented instance state) "
-               "over the whole corpus, and every input model digest must be unchanged; non-trivial = distinct (key, result) observations" % ((3, 7) if ctx.quick else (4, 6)),
+               "over the whole corpus, and every input model digest must be unchanged; non-trivial = distinct (key, result) observations" % ((3, 7) if ctx.quick else (4, 4)),
                ["digests are FNV-1a of canonical dumps made with public getters", "the corpus-wide functional check is one TLC run over the de-duplicated observations"])
